@@ -8,7 +8,7 @@ package notifier
 // Output per case: "OK json=<0|1>" (rendered; json.Valid of the bytes) or "ERR".
 // "conf" cases run the real Coordinator.Configure (default parser) and execute the templates it stored: see vtConf.
 // A further kind of case, "offer <hex template text>", executes a one-action template written against the documented
-// data fields / helper functions (parsed with helperFunctionMap, executed with executeTemplate on a fixed status) and
+// data fields / helper functions (parsed with the coordinator's FuncMap, executed with executeTemplate on a fixed status) and
 // prints "OK <hex of the output>", "PARSE-ERR" or "ERR".
 
 import (
@@ -107,7 +107,42 @@ func (t *vtTokens) partition() *protocol.PartitionStatus {
 var vtTemplates = map[string]*template.Template{}
 var vtTemplateErr = map[string]error{}
 
-// vtTemplate parses a shipped template file the way Coordinator.Configure does (coordinator.go:158-161, 214-219).
+func vtFreshCoordinator() *Coordinator {
+	coordinator := &Coordinator{Log: zap.NewNop()}
+	coordinator.App = &protocol.ApplicationContext{
+		Logger:             zap.NewNop(),
+		StorageChannel:     make(chan *protocol.StorageRequest),
+		EvaluatorChannel:   make(chan *protocol.EvaluatorRequest),
+		Zookeeper:          &helpers.MockZookeeperClient{},
+		ZookeeperRoot:      "/burrow",
+		ZookeeperConnected: true,
+		ZookeeperExpired:   &sync.Cond{L: &sync.Mutex{}},
+	}
+	return coordinator
+}
+
+// vtFuncs returns a fresh, empty template carrying the FuncMap the coordinator parses notifier templates with.  The map
+// is taken from the coordinator's own default parser (Configure on an empty notifier section installs it in
+// templateParseFunc, a field the unit tests pin; an empty file is parsed with it), not from a package variable whose
+// name a refactoring may change.  Templates are then parsed into their own named member of that fresh set and used
+// directly, never through Templates()[0].
+func vtFuncs() (*template.Template, error) {
+	coordinator := vtFreshCoordinator()
+	viper.Reset()
+	coordinator.Configure()
+	if coordinator.templateParseFunc == nil {
+		return nil, fmt.Errorf("Configure installed no template parser")
+	}
+	f, err := os.CreateTemp("", "verif-empty-*.tmpl")
+	if err != nil {
+		return nil, err
+	}
+	f.Close()
+	defer os.Remove(f.Name())
+	return coordinator.templateParseFunc(f.Name())
+}
+
+// vtTemplate parses a shipped template file on its own, with the coordinator's FuncMap.
 func vtTemplate(name string) (*template.Template, error) {
 	if t, ok := vtTemplates[name]; ok {
 		return t, vtTemplateErr[name]
@@ -117,9 +152,12 @@ func vtTemplate(name string) (*template.Template, error) {
 		repo = "/repo"
 	}
 	var res *template.Template
-	tmpl, err := template.New("notifier").Funcs(helperFunctionMap).ParseFiles(filepath.Join(repo, "config", name))
+	text, err := os.ReadFile(filepath.Join(repo, "config", name))
 	if err == nil {
-		res = tmpl.Templates()[0]
+		var carrier *template.Template
+		if carrier, err = vtFuncs(); err == nil {
+			res, err = carrier.New(name).Parse(string(text))
+		}
 	}
 	vtTemplates[name], vtTemplateErr[name] = res, err
 	return res, err
@@ -287,16 +325,7 @@ func vtConf(t *vtTokens) (res string) {
 	for rep := 0; rep <= reps; rep++ {
 		if rep < reps || coordinator == nil {
 			// a fresh coordinator with the DEFAULT template parser (templateParseFunc left nil)
-			coordinator = &Coordinator{Log: zap.NewNop()}
-			coordinator.App = &protocol.ApplicationContext{
-				Logger:             zap.NewNop(),
-				StorageChannel:     make(chan *protocol.StorageRequest),
-				EvaluatorChannel:   make(chan *protocol.EvaluatorRequest),
-				Zookeeper:          &helpers.MockZookeeperClient{},
-				ZookeeperRoot:      "/burrow",
-				ZookeeperConnected: true,
-				ZookeeperExpired:   &sync.Cond{L: &sync.Mutex{}},
-			}
+			coordinator = vtFreshCoordinator()
 		} // the last round configures the same coordinator a second time
 		viper.Reset()
 		for _, m := range mods {
@@ -361,7 +390,11 @@ func vtOffer(t *vtTokens) (res string) {
 		}
 	}()
 	text := t.str()
-	tmpl, err := template.New("offer").Funcs(helperFunctionMap).Parse(text)
+	carrier, err := vtFuncs()
+	if err != nil {
+		return "PARSE-ERR"
+	}
+	tmpl, err := carrier.New("offer").Parse(text)
 	if err != nil {
 		return "PARSE-ERR"
 	}
